@@ -1,7 +1,7 @@
 """C19 - decoding a PEL gives the same result whatever was decoded before it.
 
-h_tworun : decode(x); decode(y); decode(x) inside ONE path (module state is reset only between paths):
-           the first and third document must be equal.  x / y come from a catalogue of pairs that
+h_tworun : fresh state: decode(x) -> d1;  fresh state: decode(y); decode(x) -> d3; decode(x) -> d4, all inside
+           ONE path: d1 == d3 == d4.  x / y come from a catalogue of pairs that
            share a decoder, a plugin, a cache key or a class; one field of x and of y is symbolic.
 h_step   : one inductive step from an arbitrary *valid* cache state (allocator pattern): every import
            cache entry relevant to x is symbolically absent / cached, under the invariant "a name maps
@@ -281,11 +281,12 @@ def h_tworun() -> bool:
                 y = full[:cand]
     elif case in ("ilog-mex-nimitz", "ilog-nimitz-mex"):
         p = pick("pte", ILOG_PTES)
-        q = pick("pte2", ILOG_PTES)
+        q = p                      # the same PTE value seen by the other drawer type first
         vx, vy = (2, 1) if case == "ilog-mex-nimitz" else (1, 2)
         x, y = _ilog(vx, p), _ilog(vy, q)
     elif case == "trace-mex-nimitz":
-        hx, hy = pick("h", TRACE_HASHES), pick("h2", TRACE_HASHES)
+        hx = pick("h", TRACE_HASHES)
+        hy = hx                    # the same hash looked up in the other string file first
         x, y = _trace(2, hx), _trace(1, hy)
     elif case == "hlog":
         a, b = sym_int("a", 0, 255), sym_int("b", 0, 255)
@@ -300,18 +301,25 @@ def h_tworun() -> bool:
         from harness.C03_src import FIXTURE_REGISTRY
         srcmod.registry.pels = FIXTURE_REGISTRY
     try:
+        # reference: x decoded first in a fresh process state
+        fresh_state()
         with env(None if real_plugins else imp) as e:
             d1 = dec(x)
+        # history: y (possibly failing) decoded first, then x - and x once more
+        fresh_state()
+        with env(None if real_plugins else imp) as e:
             if between is not None:
                 imp.behaviour = between
             d2 = dec(y)
             imp.behaviour = 0
             d3 = dec(x)
+            d4 = dec(x)
     except Exception as ex:
         return verdict(False, obs={"exception": repr(ex)})
     finally:
         srcmod.registry.pels = saved_pels
-    conds = [isinstance(d1, dict), doc_eq(d1, d3) if isinstance(d1, dict) and isinstance(d3, dict) else False]
+    conds = [isinstance(d1, dict), doc_eq(d1, d3) if isinstance(d1, dict) and isinstance(d3, dict) else False,
+             doc_eq(d1, d4) if isinstance(d1, dict) and isinstance(d4, dict) else False]
     return verdict(sym_all(conds), obs={"first": d1, "third": d3, "second_kind": d2 if isinstance(d2, tuple) else "document"})
 
 
